@@ -226,8 +226,9 @@ Definition remove (m : imap) (id : string) : imap :=
 
 (** [WebSocketSubMapper::map]: one insert per subscription, in order (a later equal id
     overwrites) *)
-Definition map_subs (e : exch) (sk : skind) (subs : list sub) : imap :=
-  fold_left (fun m s => insert m (sid e sk s) (fst s)) subs empty_map.
+Definition map_ids (idf : sub -> string) (subs : list sub) : imap :=
+  fold_left (fun m s => insert m (idf s) (fst s)) subs empty_map.
+Definition map_subs (e : exch) (sk : skind) (subs : list sub) : imap := map_ids (sid e sk) subs.
 
 (** ** [BitfinexWebSocketSubValidator::validate], the [Subscribed] arm: each confirmation
     (channel, symbol, chanId) moves the entry stored under ["channel|symbol"] to the decimal
